@@ -34,7 +34,21 @@ def setup(case, second=False):
     noise_kw, S = gc.noise_matrix(case, ys)
     th_cov = gc.theta_from_unit(spec, case, X, ys)
     th_mean = gc.mean_theta(case, X, y, ys)[: rk.mean_n_params(case["mean"], d)]
+    if case.get("theta_form", "float") != "float":
+        # whole-number hyper-parameters (which a caller may hold in an integer array or a list of Python ints)
+        kinds = rk.param_kinds(spec, n, d)
+        rc = np.round(th_cov)
+        if all(rc[i] > 0 for i, k in enumerate(kinds) if k == "width") and np.all(np.abs(rc) < 2**31) and np.all(np.abs(np.round(th_mean)) < 2**31):
+            th_cov, th_mean = rc, np.round(th_mean)
     return X, y, xs, ys, spec, noise_kw, S, th_cov, th_mean
+
+
+def theta_arg(case, theta):
+    """the hyper-parameter vector in the form the caller holds it in"""
+    form = case.get("theta_form", "float")
+    if form == "float" or not np.array_equal(theta, np.round(theta)):
+        return theta.copy()
+    return theta.astype(form)
 
 
 def second_theta(case, X, y, ys, spec):
@@ -109,6 +123,8 @@ def score_cases(draw, max_n=20):
     case = draw(gc.gp_problems(max_n=max_n, max_d=3, max_m=1, min_n=2))
     case["theta_u2"] = [draw(gc.unit) for _ in case["theta_u"]]
     case["mean_u2"] = [draw(gc.unit) for _ in case["mean_u"]]
+    # (an array: the documented type; a Python list is outside the documented domain - list arithmetic differs)
+    case["theta_form"] = draw(st.sampled_from(["float", "float", "float", "int64", "int32"]))
     return case
 
 
@@ -145,8 +161,8 @@ def body_scores(case, ctx):
     f = 1e-9 + 100 * kappa * EPS
     with np.errstate(all="ignore"), warnings.catch_warnings():
         warnings.simplefilter("ignore")
-        lml = float(gp.marginal_likelihood(theta))
-        lml_g, _ = gp.marginal_likelihood_gradient(theta)
+        lml = float(gp.marginal_likelihood(theta_arg(case, theta)))
+        lml_g, _ = gp.marginal_likelihood_gradient(theta_arg(case, theta))
     err = abs(lml - ref["lml"])
     ctx.ratio("marginal", err, f * ref["scale"])
     if not np.isfinite(lml) or err > f * ref["scale"]:
@@ -221,8 +237,8 @@ def body_gradients(case, ctx):
                               ("loo", gp.loo_likelihood, gp.loo_likelihood_gradient)):
         with np.errstate(all="ignore"), warnings.catch_warnings():
             warnings.simplefilter("ignore")
-            val, grad = both(theta)
-            pv = float(plain(theta))
+            val, grad = both(theta_arg(case, theta))
+            pv = float(plain(theta_arg(case, theta)))
         grad = np.asarray(grad, dtype=float)
         if grad.shape != (theta.size,):
             raise Violation(f"{name}-gradient-shape:{tag}", f"gradient shape {grad.shape} for {theta.size} hyper-parameters")
@@ -257,6 +273,7 @@ def body_gradients(case, ctx):
     ctx.nontrivial(nontrivial(case, kappa, theta.size))
     ctx.event("kernel=" + tag)
     ctx.event(f"mean={case['mean']}")
+    ctx.event("theta-form=" + (case.get("theta_form", "float") if np.array_equal(theta, np.round(theta)) else "float"))
 
 
 @st.composite
